@@ -500,6 +500,13 @@ Proof.
   destruct H as [_ [_ Hd]]. destruct (check_trailing rest' ln'); [cbn; discriminate|exact Hd].
 Qed.
 
+(* the route kinds of parse_route, in the order the generated table (config.rs) gives: the model tests exactly these keys *)
+Lemma route_kind_table_ok :
+  route_kind_table = [([102; 105; 108; 101], RT_File); ([100; 105; 114; 101; 99; 116; 111; 114; 121], RT_Directory);
+                      (rkey_proxy, RT_Proxy); ([114; 101; 100; 105; 114; 101; 99; 116], RT_Redirect)] /\
+  RT_ExclusiveWebSocket = 4 /\ size_units = [(75, 1024%Z); (77, 1048576%Z); (71, 1073741824%Z)].
+Proof. repeat split. Qed.
+
 (* ================================================================================================
    3. Safety of from_tree
    ================================================================================================ *)
